@@ -586,6 +586,7 @@ type Script struct {
 	PutTraErr bool
 	Calls     []Call
 	payCh     chan boson.Address
+	payGate   chan struct{} // non-nil: Pay waits for it to be closed
 	// hold mode (C32 first-touch schedules): RetrieveTraffic calls are parked until ReleaseHeld
 	hold bool
 	held []*HeldCall
@@ -650,9 +651,27 @@ func (s *Script) rec(n string, p boson.Address, a *big.Int) {
 func (s *Script) Pay(ctx context.Context, peer boson.Address, thr *big.Int) error {
 	s.mu.Lock()
 	s.rec("Pay", peer, thr)
+	g := s.payGate
 	s.mu.Unlock()
+	if g != nil {
+		<-g // a slow settlement layer: Pay returns only when the gate is opened
+	}
 	s.payCh <- peer
 	return nil
+}
+
+// GatePay makes Pay calls wait until the returned function is called (a slow settlement layer).
+func (s *Script) GatePay() (open func()) {
+	g := make(chan struct{})
+	s.mu.Lock()
+	s.payGate = g
+	s.mu.Unlock()
+	return func() {
+		s.mu.Lock()
+		s.payGate = nil
+		s.mu.Unlock()
+		close(g)
+	}
 }
 func (s *Script) PayCh() <-chan boson.Address { return s.payCh }
 func (s *Script) TransferTraffic(peer boson.Address) (*big.Int, error) {
